@@ -6,6 +6,7 @@
 
 mod alloc;
 mod bodyx;
+mod clockseam;
 mod fidelity;
 mod gen;
 mod httpref;
@@ -439,7 +440,7 @@ fn cmd_run(args: &[String]) -> i32 {
         println!("VIOLATION property={} replay={}", spec.id, reported);
         new_violations += 1;
     }
-    let n_found_runs = b.found.len();
+    let n_found_runs = b.found_total as usize;
     runner::write_evidence(
         spec,
         tier,
